@@ -135,9 +135,9 @@ def serde_and_change(ctx, prog):
 
 def kani_part(ctx):
     import kanirun
-    fn = ['OrderedSet::append', 'OrderedSet::prepend', 'OrderedSet::remove', 'OrderedSet::replace', 'OrderedSet::update', 'OrderedSet::change',
+    fn = ['OrderedSet::from_iter (projection key)', 'OrderedSet::append', 'OrderedSet::prepend', 'OrderedSet::remove', 'OrderedSet::replace', 'OrderedSet::update', 'OrderedSet::change',
           'OrderedSet::try_from(Vec)', 'OrderedSet::from_iter']
-    quick = ['c19_append_2', 'c19_remove_2', 'c19_twin_must_fail']
+    quick = ['c19_append_2', 'c19_remove_2', 'c19_collect_kv_3', 'c19_twin_must_fail']
     # replace / update on symbolic contents (c19_replace_1/2, c19_update_1/2), c19_prepend_3: 20-30 minute caps hit -> not registered
     thorough = ['c19_append_0', 'c19_append_1', 'c19_append_3', 'c19_prepend_0', 'c19_prepend_1', 'c19_prepend_2',
                 'c19_remove_1', 'c19_remove_3', 'c19_from_vec_3']
